@@ -156,7 +156,10 @@ Definition run_client (x : sx) : sx :=
    model state, and handed to the model as the op variant:
      insert_with under a mounted shard  -> the final rename fails        (TInsertWithXdev)
      insert_file under a mounted shard  -> rename fails, fall-back copy  (TInsertFileCopy fits),
-       fits = the tmpfs (4 KiB pages) has room once the old file at the path is truncated.
+       fits = the tmpfs (4 KiB pages) has room for the temp copy beside what is already there;
+     crash_insert_file content k cap: a child with RLIMIT_FSIZE = k runs insert_file and the cache is
+       re-opened: killed in the fall-back copy (tc_crash_insert_file_copy) when the shard is mounted,
+       k < length and k bytes fit; otherwise insert_file ran to its end (done / failed) first.
    obs as for tccache with lengths in place of contents. ---- *)
 Definition get_content (x : sx) : bytes :=
   match x with
@@ -196,7 +199,7 @@ Definition dec_op_m (dg : bytes -> id) (ms : list (key * N)) (s : tst) (x : sx) 
         match mount_of ms k with
         | None => Some (TInsertFile c)
         | Some (p, n) =>
-            Some (TInsertFileCopy c (pages (blen c) <=? n - used_pages p (aremove k (files (lru s)))))
+            Some (TInsertFileCopy c (pages (blen c) <=? n - used_pages p (files (lru s))))
         end
       else dec_op x
   | SL [t; a; b; c] =>
@@ -211,26 +214,41 @@ Definition dec_op_m (dg : bytes -> id) (ms : list (key * N)) (s : tst) (x : sx) 
   | _ => None
   end.
 
+Definition crash_file_m (dg : bytes -> id) (ms : list (key * N)) (s : tst) (b : bytes) (k c : N)
+    : tout * tst :=
+  let kp := key_path (dg b) in
+  let finish (o : top) :=
+    let '(s1, out) := tstep dg s o in
+    match out with
+    | TORes r t _ => (TORes TOk t [bs (if match r with TOk => true | _ => false end then "done" else "failed")],
+                      tc_reopen s1 c)
+    | TOBool _ => (out, s1)
+    end in
+  match mount_of ms kp with
+  | None => finish (TInsertFile b)
+  | Some (p, n) =>
+      let free := n - used_pages p (files (lru s)) in
+      if (blen b <=? cap (lru s)) && (k <? blen b) && (k <=? free * 4096)
+      then (TORes TOk None [bs "killed"], tc_crash_insert_file_copy dg s b (N.to_nat k) c)
+      else finish (TInsertFileCopy b (pages (blen b) <=? free))
+  end.
+
 Fixpoint mtrace (dg : bytes -> id) (ms : list (key * N)) (s : tst) (ops : list sx) : list (tout * tst) :=
   match ops with
   | [] => []
   | x :: r =>
+      let plain :=
+        match dec_op_m dg ms s x with
+        | Some o => let '(s', out) := tstep dg s o in (out, s') :: mtrace dg ms s' r
+        | None => []
+        end in
       match x with
       | SL [t; a; k; c] =>
           if is_sym "crash_insert_file" t then
-            (* known finding C17-K1: killed while the fall-back copy had written k bytes; restart *)
-            let s' := tc_crash_insert_file_copy dg s (get_content a) (N.to_nat (get_N k)) (get_N c) in
-            (TORes TOk None [bs "killed"], s') :: mtrace dg ms s' r
-          else
-            match dec_op_m dg ms s x with
-            | Some o => let '(s', out) := tstep dg s o in (out, s') :: mtrace dg ms s' r
-            | None => []
-            end
-      | _ =>
-          match dec_op_m dg ms s x with
-          | Some o => let '(s', out) := tstep dg s o in (out, s') :: mtrace dg ms s' r
-          | None => []
-          end
+            let '(out, s') := crash_file_m dg ms s (get_content a) (get_N k) (get_N c) in
+            (out, s') :: mtrace dg ms s' r
+          else plain
+      | _ => plain
       end
   end.
 
